@@ -58,11 +58,14 @@ func (b *blk) MakeBlockId() ([]byte, error) {
 	return b.Blockid, nil
 }
 
-// stubLedger is a linear chain (height = index). state holds, per block id, the contract storage as of
-// that block (what a snapshot created at the block reads): bucket + "/" + key -> value.
+// stubLedger is a linear main chain (height = index) plus side-branch blocks that are reachable by id only
+// (QueryBlock), never by height. state holds, per block id, the contract storage as of that block (what a
+// snapshot created at the block reads): bucket + "/" + key -> value.
 type stubLedger struct {
 	chain []*blk
 	byID  map[string]*blk
+	// side is the chain (heights 1..) that was the main chain before the last forkAtGenesis: a stored side branch
+	side  []*blk
 	conf  []byte
 	state map[string]map[string][]byte
 	// snapServed counts the snapshot reads that returned a recorded (non-empty) value
@@ -81,8 +84,17 @@ func (l *stubLedger) put(b *blk) {
 func (l *stubLedger) tip() *blk { return l.chain[len(l.chain)-1] }
 
 // forkAtGenesis makes the genesis block the tip again; the blocks stored so far stay known by id (they have become
-// a side branch), so that the next chain built is a fork.
-func (l *stubLedger) forkAtGenesis()                    { l.chain = l.chain[:1] }
+// a side branch, kept in side), so that the next chain built is a fork.
+func (l *stubLedger) forkAtGenesis() {
+	l.side = append([]*blk{}, l.chain[1:]...)
+	l.chain = l.chain[:1]
+}
+
+// putSide stores a block that is not on the main chain: known by id, invisible by height, never the tip.
+func (l *stubLedger) putSide(b *blk) { l.byID[string(b.Blockid)] = b }
+
+// genesis is the block every chain of this ledger starts from.
+func (l *stubLedger) genesis() *blk                     { return l.chain[0] }
 func (l *stubLedger) GetConsensusConf() ([]byte, error) { return l.conf, nil }
 func (l *stubLedger) GetTipBlock() ledger.BlockHandle   { return l.tip() }
 func (l *stubLedger) QueryBlock(id []byte) (ledger.BlockHandle, error) {
